@@ -843,13 +843,26 @@ package rlp
 
 // DecodeBytes: the stream is limited to exactly len(b), and success means the input held exactly ONE value — trailing bytes
 // are rejected (otherwise accepted bytes could not re-encode identically).
+// Ghost flag c14Whole: the byte slice that DecodeBytes was last given AND found to hold exactly one value (set only at its
+// successful return). c14WholeInput(b) is what a caller that decodes untrusted bytes must be able to state on acceptance;
+// rlp.Decode / (*Stream).Decode do not establish it (they stop after the first value and ignore what follows).
+//@ ghost var c14Whole: Slice
+//@ spec func c14WholeInput(b: []byte) bool = c14Whole == b
+
 //@ func DecodeBytes props C14
-//@ modifies all, c14Consumed, c14K, c14Sz, c14P, c14E, c14Left
+//@ modifies all, c14Consumed, c14K, c14Sz, c14P, c14E, c14Left, c14Whole
 //@ ghost after call (*bytes.Reader).Len: c14Left := ret
+//@ ghost before return#1: c14Whole := b
+//@ ensures [accept-implies-whole-input] result == nil ==> c14WholeInput(b)
 //@ assert before call NewStream: [limit-is-input-length] a1 == len(b)
 //@ assert before return#1: [no-trailing-data] c14Left <= 0
 //@ assert before return#2: [trailing-data-rejected] result == ErrMoreThanOneValue
 //@ assert before return#3: [decode-error-returned] result != nil
+
+// rlp.Decode (reader entry point): decodes ONE value and leaves the rest of the reader alone — no trailing-data check, the
+// flag c14Whole is not touched (not in the modifies clause: checked).
+//@ func Decode props C14
+//@ modifies all, c14Consumed, c14K, c14Sz, c14P, c14E
 
 // Stream.Bool: only the integers 0 and 1 are booleans (canonical: writeBool emits 0x80 for false, 0x01 for true).
 //@ func (*Stream).Bool props C14
